@@ -216,6 +216,26 @@ def shared_spend_discard(order=0):
     return w.scenario(f"directed-shared-spend-discard-{order}", {"thr": 2, "seed": 21 + order}, cmds)
 
 
+def multi_fork_discard():
+    """An anchor with three children, one of the losing forks forked again: all of it is discarded in one pop
+    (C20: nothing of a discarded fork stays behind)."""
+    w = _w(23)
+    a = _plain_chain(w, 1, 5, 1)
+    b1 = w.mine(1, ntx=0, coinbase_out=cb(2, 7))
+    c1 = w.mine(1, ntx=0, coinbase_out=cb(2, 8))
+    c2 = w.mine(c1, ntx=0, coinbase_out=cb(2, 9))
+    c2x = w.mine(c1, ntx=0, coinbase_out=cb(3, 9))
+    c3 = w.mine(c2x, ntx=0, coinbase_out=cb(3, 10))
+    d2 = w.mine(a[0], ntx=0, coinbase_out=cb(3, 11))
+    d2x = w.mine(a[0], ntx=0, coinbase_out=cb(3, 12))
+    probe = [q("info"), q("utxos", addr=2, mc=-1), q("balance", addr=3, mc=0)]
+    cmds = [{"c": "tick", "dt": 100000}]
+    for b in [a[0], b1, c1, c2, c2x, a[1], d2, d2x, c3, a[2], a[3], a[4]]:
+        cmds += [{"c": "offer", "initial": complete([b])}, {"c": "hb"}, {"c": "hb"}] + probe
+    cmds += [{"c": "upgrade", "d": {}}] + probe + [{"c": "hb"}] * 2 + probe
+    return w.scenario("directed-multi-fork-discard", {"thr": 2, "seed": 23}, cmds)
+
+
 def directed(pid, tier="quick"):
     S = []
     if pid in ("C01", "C05", "C06"):
@@ -236,6 +256,8 @@ def directed(pid, tier="quick"):
         S += [threshold_raise_while_paused()]
     if pid in ("C20", "C05", "C01"):
         S += [shared_spend_discard(0), shared_spend_discard(1)]
+    if pid in ("C20", "C03"):
+        S += [multi_fork_discard()]
     if pid == "C03":
         S += [depth_bound_tips("regtest", 2), depth_bound_tips("testnet", 144, 90, 14)]
     if pid == "C03" and tier == "thorough":
